@@ -149,6 +149,20 @@ class Program:
                 k = len(self.uses)
                 ln = self.emit(ind, 'T(lambda: U(%d, %s))' % (k, op[1]))
                 self.uses.append((ln, self.lines[-1].rindex(op[1]), op[1], sc))
+            elif kind == 'default_use':
+                # a use in the default value of a parameter *of the same name*: evaluated in the
+                # enclosing scope when the lambda / def is created
+                _, ident, form = op
+                k = len(self.uses)
+                self.emit(ind, 'try:')
+                if form == 'lambda':
+                    ln = self.emit(ind + 1, '(lambda %s=U(%d, %s): 0)' % (ident, k, ident))
+                else:
+                    self.fn += 1
+                    ln = self.emit(ind + 1, 'def fd%d(%s=U(%d, %s)): pass' % (self.fn, ident, k, ident))
+                L = self.lines[-1]
+                self.emit(ind, 'except NameError: pass')
+                self.uses.append((ln, L.index(ident, L.index('U(') + 3), ident, scope, form + '_default'))
             elif kind == 'comp':
                 _, used, target = op
                 sc = self.new_scope('comp', scope)
@@ -200,8 +214,10 @@ def random_ops(rnd, depth=0, max_depth=3, in_def=False):
             if ident == BUILTIN and rnd.random() < 0.6:
                 continue
             ops.append(('bind', ident, how))
-        elif c < 0.60:
+        elif c < 0.55:
             ops.append(('use', ident))
+        elif c < 0.60:
+            ops.append(('default_use', ident, rnd.choice(['lambda', 'def'])))
         elif c < 0.92 and depth < max_depth:
             k = rnd.choice(['def', 'def', 'def', 'class', 'lambda', 'comp'])
             if k == 'def':
